@@ -73,6 +73,8 @@ def e_sarg(a):
         return [0] + e_str(a[1])
     if t == 'int':
         return [1, a[1]]
+    if t == 'intlike':
+        return [1, int(a[1])]             # a bool, an int subclass, an IntEnum member: the code it stands for
     if t == 'obj':
         return [2] + e_str(obj_text(a[1]))
     if t == 'member':
@@ -97,6 +99,15 @@ def obj_text(v):
 def e_optsarg(a):
     return ['N'] if a is None else e_sarg(a)
 
+class IntSub(int):
+    """an int subclass whose text is not the number: whoever formats the object instead of its value shows it"""
+    def __str__(self):
+        return 'code<%d>' % int(self)
+    __repr__ = __str__
+    def __format__(self, spec):
+        return 'code<%d>' % int(self)
+
+
 def build_sarg(a, mod, parent=None):
     """The actual Python object for an SArg AST."""
     t = a[0]
@@ -104,6 +115,13 @@ def build_sarg(a, mod, parent=None):
         return a[1]
     if t == 'int':
         return a[1]
+    if t == 'intlike':
+        if a[2] == 'bool':
+            return bool(a[1])
+        if a[2] == 'enum':
+            import importlib
+            return importlib.import_module(mod.AnsiString.__module__.rsplit('.', 1)[0] + '.ansi_param').AnsiParam(a[1])
+        return IntSub(a[1])
     if t == 'obj':
         return mod.AnsiSetting(a[1])
     if t == 'member':
